@@ -2,6 +2,7 @@ package props
 
 import (
 	"fmt"
+	"go/types"
 	"os"
 	"strings"
 
@@ -66,11 +67,22 @@ func runC04(c *Ctx) {
 		r.Check(ok, "C04.charset.inverse", "", "decMap[c] = index of c in the alphabet, 0xFF for every other byte (256 entries compared)")
 	}
 	// decode helper: sentinel rejection, value handed on
+	// (the helper reports a bad character through an error, or through its position with -1 for "none")
 	var decodeFn *ssa.Function
+	statusIdx := false
 	for _, ce := range deepEdges(c, b) {
 		if _, ok := ana.Match("bin<==>(ext#1(call<*>(load(global<repo/pkg/bech32.charset>), _)), nil)", ce.Lit); ok {
 			decodeFn = calleeOf(ce.Lit.Arg(0))
 		}
+		if _, ok := ana.MatchAny(ce.Lit, "bin<<>(ext#1(call<*>(load(global<repo/pkg/bech32.charset>), _)), 0)", "bin<==>(ext#1(call<*>(load(global<repo/pkg/bech32.charset>), _)), -1)"); ok && decodeFn == nil {
+			if h := calleeOf(ce.Lit.Arg(0)); h != nil && h.Signature.Results().Len() == 2 && types.Identical(h.Signature.Results().At(1).Type(), types.Typ[types.Int]) {
+				decodeFn, statusIdx = h, true
+			}
+		}
+	}
+	c04DecodeIdx = nil
+	if statusIdx {
+		c04DecodeIdx = decodeFn
 	}
 	if decodeFn == nil {
 		r.Undec("C04.charset.decode-helper", c.P.Pos(fn.Pos()), "no charset.decode gate found in Decode")
@@ -92,7 +104,17 @@ func runC04(c *Ctx) {
 					}
 					et := db.Of(e.Results[1], e.Instr)
 					vt := db.Of(e.Results[0], e.Instr)
-					if et.Is("nil") {
+					success := et.Is("nil")
+					if statusIdx {
+						// -1 for "every character decoded", otherwise the (non-negative) loop position of the bad character
+						k, isInt := et.Int()
+						success = isInt && k == -1
+						if !success && !matches(idx, et) {
+							r.Viol("C04.charset.decode-reject", c.ipos(e.Instr), "reported position is neither -1 nor the loop index: %s", short(et.String(), 120))
+							continue
+						}
+					}
+					if success {
 						_, ok := ana.Match("obj(makeslice<[]uint8>(len(p1), len(p1)), maybe(store(iaddr(self, "+idx+"), "+elem+")))", vt)
 						r.Check(ok && exitMustPass(decodeFn, e, []ana.Edge{{From: l.Header, To: l.Exit}}), "C04.charset.decode-values", c.ipos(e.Instr), "success: dst[i] = decMap[src[i]] for every i, len(dst) = len(src): %s", short(vt.String(), 200))
 					} else {
@@ -110,6 +132,7 @@ func runC04(c *Ctx) {
 	hl := `call<strings.LastIndex>(p0, "1")`
 	lower := "call<strings.ToLower>(p0)"
 	data := "ext#0(call<*>(load(global<repo/pkg/bech32.charset>), slice(" + lower + ", bin<+>(" + hl + ", 1), none)))"
+	decStatus := "ext#1(call<*>(load(global<repo/pkg/bech32.charset>), slice(" + lower + ", bin<+>(" + hl + ", 1), none)))"
 	type gate struct {
 		name   string
 		accept []string
@@ -121,14 +144,17 @@ func runC04(c *Ctx) {
 		{"hrp-nonempty", []string{"bin<>=>(" + hl + ", 1)", "bin<!=>(" + hl + ", 0)"}, []string{"bin<<>(" + hl + ", 1)", "bin<==>(" + hl + ", 0)"}}, // with separator-present (hl != -1): hl != 0 ⟺ hl >= 1
 		{"six-symbols-after-separator", []string{"bin<<>(bin<->(" + hl + ", len(p0)), -5)"}, []string{"bin<>=>(bin<->(" + hl + ", len(p0)), -5)"}},  // canonical form of hrpLen+6 <= len(s)
 		{"single-case", []string{"bin<==>(call<*>(p0), nil)"}, []string{"bin<!=>(call<*>(p0), nil)"}},
-		{"charset", []string{"bin<==>(ext#1(call<*>(load(global<repo/pkg/bech32.charset>), slice(" + lower + ", bin<+>(" + hl + ", 1), none))), nil)"},
-			[]string{"bin<!=>(ext#1(call<*>(load(global<repo/pkg/bech32.charset>), slice(" + lower + ", bin<+>(" + hl + ", 1), none))), nil)"}},
+		{"charset", []string{"bin<==>(" + decStatus + ", nil)"}, []string{"bin<!=>(" + decStatus + ", nil)"}},
 		{"checksum-length", []string{"bin<>=>(len(" + data + "), 6)"}, []string{"bin<<>(len(" + data + "), 6)"}},
 		// through the verification routine, or written out: polymod(expand(hrp) ‖ data) == 1 (the routines are decided under C16)
 		{"checksum-valid", []string{"call<*>(slice(" + lower + ", 0, " + hl + "), " + data + ")", "bin<==>(call<*>(concat(call<*>(slice(" + lower + ", 0, " + hl + ")), " + data + ")), 1)"},
 			[]string{"un<!>(call<*>(slice(" + lower + ", 0, " + hl + "), " + data + "))", "bin<!=>(call<*>(concat(call<*>(slice(" + lower + ", 0, " + hl + ")), " + data + ")), 1)"}},
 		{"regroup", []string{"bin<==>(ext#1(call<repo/pkg/bech32/internal/base32.Decode>(_, slice(" + data + ", 0, bin<->(len(" + data + "), 6)))), nil)"},
 			[]string{"bin<!=>(ext#1(call<repo/pkg/bech32/internal/base32.Decode>(_, slice(" + data + ", 0, bin<->(len(" + data + "), 6)))), nil)"}},
+	}
+	if statusIdx {
+		gates[5].accept = []string{"bin<<>(" + decStatus + ", 0)", "bin<==>(" + decStatus + ", -1)"}
+		gates[5].reject = []string{"bin<>=>(" + decStatus + ", 0)", "bin<!=>(" + decStatus + ", -1)"}
 	}
 	var rejectPats []string
 	var succ, errs []vexit
@@ -733,6 +759,9 @@ func c04Len(t *ana.Term, tu []int64) (int64, bool) {
 	return 0, false
 }
 
+// c04DecodeIdx is the charset decoder when it reports the bad character by position (set by runC04).
+var c04DecodeIdx *ssa.Function
+
 // c04OffsetRange bounds an offset term; helper-reported positions range over [0, scanned length].
 func c04OffsetRange(t *ana.Term, tu []int64) (int64, int64, bool) {
 	if v, ok := c04Int(t, tu); ok {
@@ -751,6 +780,14 @@ func c04OffsetRange(t *ana.Term, tu []int64) (int64, int64, bool) {
 				if n, ok := c04Len(call.Arg(1), tu); ok {
 					return 0, n, true
 				}
+			}
+		}
+	}
+	// the position the charset decoder reported (-1 or an index into what it was handed)
+	if t.Is("ext") && t.Idx == 1 && c04DecodeIdx != nil {
+		if call := t.Arg(0); call.Is("call") && len(call.Args) == 2 && calleeOf(call) == c04DecodeIdx {
+			if n, ok := c04Len(call.Arg(1), tu); ok {
+				return -1, n - 1, true
 			}
 		}
 	}
